@@ -29,7 +29,7 @@ ASSUMPTIONS = ["nvmon.ref exact reference for vertex positions (uv within 1e-12 
 FLOORS = {'quick': {'topology': 150, 'vertex-on-surface': 1500, 'quads': 100, 'trim-cells': 1000, 'obj': 60, 'off': 60, 'stl-ascii': 60,
                     'stl-binary': 60, 'container': 30},
           'thorough': {'topology': 1500, 'vertex-on-surface': 15000, 'trim-cells': 10000}}
-MANDATORY_TAGS = ['spacing1', 'spacing>=2', 'spacing>=3', 'rational', 'trim:freeform', 'trim:spline', 'trim:reversed', 'trim:clockwise', 'trim:non-unit-domain', 'trim:added-after-tessellation', 'container', 'container:tessellator-replaced', 'quad:as-surface-tessellator',
+MANDATORY_TAGS = ['spacing1', 'spacing>=2', 'spacing>=3', 'rational', 'trim:freeform', 'trim:spline', 'trim:reversed', 'trim:clockwise', 'trim:non-unit-domain', 'trim:added-after-tessellation', 'trim:setter-replaces', 'container', 'container:tessellator-replaced', 'quad:as-surface-tessellator',
                   'quad', 'non-unit-domain', 'export:file']
 TECHNIQUE = ("runtime monitoring: structural + exact-geometric oracle over every tessellation the workload produces (ids, indices, "
              "orientation, exact area cover, edge incidence, Euler characteristic, vertex = surface(uv)), cell-classification oracle "
@@ -469,10 +469,22 @@ def check_trim(case, ctx):
         # the surface already holds an (untrimmed) tessellation when the trim curve arrives
         o.vertices
         ctx.tag('trim:added-after-tessellation')
+    if how != 'tessellated-then-add_trim' and rng.random() < 0.35:
+        # the trims are SET: an earlier assignment (a hole in the opposite corner region) is replaced, not extended
+        decoy = freeform.Freeform()
+        dx, dy = (0.06, 0.06) if cx > 0.5 else (0.8, 0.8)
+        decoy.evaluate(points=[P2(dx, dy), P2(dx + 0.12, dy), P2(dx + 0.12, dy + 0.12), P2(dx, dy + 0.12), P2(dx, dy)])
+        o.trims = [decoy]
+        if rng.random() < 0.5:
+            o.vertices
+        ctx.tag('trim:setter-replaces')
     if how == 'tessellated-then-add_trim':
         o.add_trim(trim)
     else:
         o.trims = [trim]
+        if not ctx.check(len(o.trims) == 1, 'trim/setter-appends', 'surf.trims = [t] leaves %d trim curves on the surface (the setter is documented to '
+                         'set the array of trim curves)' % len(o.trims), what='topology'):
+            return
     if how == 'trims-first':
         o.tessellate()
     V, Fc = o.vertices, o.faces
